@@ -12,7 +12,8 @@ oracle: the sentences of C12 with explicit slack, evaluated on the implementatio
         unanswered for 2h (and no frame for 2h) is dropped at the next tick; a silent peer is
         disconnected by a + 3h + 2*delta; a watchdog disconnect needs a TestRequest that stayed unanswered
         for more than 2h - 1 s (liveness by echo) and no valid frame within the last 2h s (liveness by
-        traffic - judged separately; was known finding C12-traffic-does-not-answer-testrequest until fix e3d9663); echo of inbound TestRequests; at most one outstanding; wrong id =>
+        traffic - judged separately and in EVERY connected state, e.g. RESENDREQ_AWAITING during a replay; "valid" =
+        carrying the expected MsgSeqNum; was known finding C12-traffic-does-not-answer-testrequest until fix e3d9663); echo of inbound TestRequests; at most one outstanding; wrong id =>
         Logout + disconnect; missing id ignored.
 """
 from __future__ import annotations
@@ -69,17 +70,30 @@ def spec_delta(spec):
     return max(max(spec["gaps"]), spec["phase"])
 
 
+def stamp_of(now_ms):
+    return S.stamp(now_ms)
+
+
 class Peer:
     """the counterparty: decides from the frames the connection writes what arrives when.
-    kinds: silent | periodic | burst | answer | prober.  Common options:
-      answer: None | {"delay": ms, "flavour": right|wrong|missing|nonnum, "stop_after": k|None}"""
+    kinds: silent | periodic | burst | answer | prober | gap.  Common options:
+      answer: None | {"delay": ms, "flavour": right|wrong|missing|nonnum, "stop_after": k|None}
+    gap: at t0+start the peer sends an application frame numbered `k` too high; when it sees our ResendRequest
+      it replays the missing numbers as PossDup frames `pace` ms apart (optionally one SequenceReset-GapFill
+      covering two numbers; optionally ignoring the request: replay=False), meanwhile / afterwards it may send
+      live Heartbeats numbered beyond the gap (`noise` ms apart; not acceptable while the resend is awaited),
+      and after the replay it goes on with in-sequence Heartbeats every `pace` ms (`then`="heartbeat") or is silent.
+    Queue items carry seq = "auto" (the number the connection expects) or an explicit number."""
 
     def __init__(self, spec, t0):
         p = spec["peer"]
         self.p, self.h, self.t0 = p, spec["h"], t0
-        self.queue = []  # (due, order, mtype, body)
+        self.queue = []  # (due, order, mtype, body, seq)
         self.n = 0
         self.answered = 0
+        self.ni = spec["counters"][0]
+        self.horizon = t0 + spec["horizon"]
+        self.top = None     # highest number the peer has used so far (gap kind)
         k = p["kind"]
         if k == "periodic":
             t = t0 + p["period"]
@@ -96,13 +110,39 @@ class Peer:
                 self._push(t, "1", [(112, f"PEER{i}")] if p.get("with_id", True) else [])
                 t += p["period"]
                 i += 1
+        elif k == "gap":
+            self.top = self.ni + p["k"]
+            self._push(t0 + p["start"], "D", [(11, "live")], seq=self.top)
+            if p.get("noise") and p.get("replay", True) is False:
+                t = t0 + p["start"] + p["noise"]
+                while t <= t0 + spec["horizon"]:
+                    self.top += 1
+                    self._push(t, "0", [], seq=self.top)
+                    t += p["noise"]
 
-    def _push(self, due, mtype, body):
+    def _push(self, due, mtype, body, seq="auto"):
         self.n += 1
-        self.queue.append((due, self.n, mtype, body))
-        self.queue.sort()
+        self.queue.append((due, self.n, mtype, body, seq))
+        self.queue.sort(key=lambda q: (q[0], q[1]))
 
     def saw_frame(self, now, mtype, fields):
+        if self.p["kind"] == "gap" and mtype == "2" and self.p.get("replay", True):
+            # serve the ResendRequest: replay BeginSeqNo .. everything sent so far
+            b = int(dict(fields)[7])
+            pace, t, n = self.p["pace"], now + self.p.get("first", self.p["pace"]), b
+            while n <= self.top:
+                if self.p.get("gapfill") and n == b + 1 and n + 1 <= self.top:
+                    self._push(t, "4", [(123, "Y"), (43, "Y"), (122, stamp_of(now)), (36, str(n + 2))], seq=n)
+                    n += 2
+                else:
+                    self._push(t, "D", [(43, "Y"), (122, stamp_of(now)), (11, f"r{n}")], seq=n)
+                    n += 1
+                t += pace
+            if self.p.get("then", "heartbeat") == "heartbeat":
+                while t <= self.horizon:
+                    self._push(t, "0", [])   # in sequence again: the number the connection expects
+                    t += pace
+            return
         a = self.p.get("answer")
         if mtype == "1" and a:
             if a.get("stop_after") is not None and self.answered >= a["stop_after"]:
@@ -136,8 +176,10 @@ def run_scenario(impl: S.Impl, spec):
     # "last0": the connection has never stamped a receive time (_message_last_time = 0.0, which is falsy)
     a = S.AbsConn(state=17, role=spec["role"], was_active=True, next_in=ni, next_out=no,
                   last_time=0 if spec.get("last0") else t0, hb=h, sock=True,
+                  max_resend=spec.get("max_resend", 0),
                   sender="S" if spec["role"] == 1 else "A", target="T" if spec["role"] == 1 else "I")
     a = S.with_journal(a, spec["journal"])
+    a.state = spec.get("state", 17)   # 10 RESENDREQ_HANDLING / 11 RECV_SEQNUM_TOO_HIGH / 12 RESENDREQ_AWAITING
     impl.load(a)
     peer = Peer(spec, t0)
     gaps, gi = spec["gaps"], 0
@@ -150,10 +192,10 @@ def run_scenario(impl: S.Impl, spec):
     while True:
         due = peer.next_due()
         if due is not None and (due < next_tick or (due == next_tick and spec["tie"] == "recv")):
-            now, _, mtype, body = peer.pop()
+            now, _, mtype, body, seq = peer.pop()
             if now > end:
                 break
-            ev = ("recv", now, S.inbound(cur, mtype, body, now_ms=now))
+            ev = ("recv", now, S.inbound(cur, mtype, body, seq=seq, now_ms=now))
             kind = "recv"
         else:
             now = next_tick
@@ -213,7 +255,21 @@ def peers_for(h):
     # the peer probes us
     out.append({"kind": "prober", "period": max(250, H // 2), "with_id": True, "answer": {"delay": 125, "flavour": "right"}})
     out.append({"kind": "prober", "period": max(250, H // 2), "with_id": False})
+    # a sequence gap, then the replay of the missing frames at various paces (RESENDREQ_AWAITING in between)
+    for pace in sorted({max(125, (2 * H) // 5 - ((2 * H) // 5) % 125), max(125, (4 * H) // 5 - ((4 * H) // 5) % 125),
+                        H + H // 2, 2 * H - 125, 2 * H, 2 * H + 125, 2 * H + H // 2}):
+        for k in (2, 4):
+            out.append({"kind": "gap", "start": 250, "k": k, "pace": pace, "then": "heartbeat"})
+        out.append({"kind": "gap", "start": H // 2 + 125 - (H // 2) % 125, "k": 3, "pace": pace, "then": "silent",
+                    "gapfill": True})
+    out.append({"kind": "gap", "start": 250, "k": 2, "pace": H, "replay": False})                      # request ignored
+    out.append({"kind": "gap", "start": 250, "k": 2, "pace": H, "replay": False, "noise": max(125, H // 2)})  # … but chatty
     return out
+
+
+def state_variants(rng, h):
+    """extra spec fields: connections that ARE in a non-ACTIVE logged-on state when the scenario starts"""
+    return rng.choice([{"state": 12, "max_resend_off": 3}, {"state": 12, "max_resend_off": 1}, {"state": 10}, {"state": 11}])
 
 
 GRIDS = [  # (gaps, label)
@@ -244,6 +300,11 @@ def all_specs(rng, n):
                              tie=rng.choice(["tick", "recv"]), role=rng.choice([1, 2]),
                              counters=rng.choice([(5, 7), (1, 1), (12, 4), (2**32 + 3, 2**33 + 1)]),
                              journal=rng.choice(["empty", "empty", "app", "sess"])))
+        if peer["kind"] in ("silent", "periodic", "burst") and not peer.get("answer") and i % 3 == 0:
+            v = state_variants(rng, h)
+            out[-1]["state"] = v["state"]
+            if "max_resend_off" in v:
+                out[-1]["max_resend"] = out[-1]["counters"][0] + v["max_resend_off"]
     return out
 
 
@@ -283,7 +344,7 @@ def correspondence(ctx):
     finally:
         impl.close()
     dis, bad = [], set()
-    dist = {"h": {}, "peer": {}, "outcome": {}, "event": {}, "effect": {}}
+    dist = {"h": {}, "peer": {}, "outcome": {}, "event": {}, "effect": {}, "start_state": {}, "tick_in_state": {}}
 
     def inc(d, k):
         dist[d][k] = dist[d].get(k, 0) + 1
@@ -293,6 +354,8 @@ def correspondence(ctx):
         s = line[k]
         il = S.reply(s["eff"], s["post"])
         inc("event", s["kind"])
+        if s["kind"] == "tick":
+            inc("tick_in_state", str(s["a_pre"].state))
         for e in s["eff"] or ["(none)"]:
             inc("effect", e.split("=")[0])
         if il != ml and si not in bad:
@@ -301,6 +364,7 @@ def correspondence(ctx):
                         "model": ml, "impl": il})
     for spec, line in runs:
         inc("h", str(spec["h"]))
+        inc("start_state", str(spec.get("state", 17)))
         p = spec["peer"]
         inc("peer", p["kind"] + ("+answer:" + p["answer"].get("flavour", "right") if p.get("answer") else ""))
         inc("outcome", outcome(line))
@@ -314,7 +378,10 @@ def correspondence(ctx):
         "distinct_nontrivial": len(set(lines)),
         "rule": "scenarios = corpus + stratified sample of {h in 1,2,3,5,30} x {arrival patterns: silent; periodic "
                 "Heartbeat / application traffic below, at, above the interval, answering or not; bursts then silence; "
-                "echo delayed 0..2 intervals (+); wrong / missing / non-numeric TestReqID; peer probing us} x {tick gap "
+                "echo delayed 0..2 intervals (+); wrong / missing / non-numeric TestReqID; peer probing us; a sequence gap "
+                "followed by the PossDup / GapFill replay at paces 0.4h..2.5h (RESENDREQ_AWAITING in between), the "
+                "ResendRequest ignored with and without too-high chatter; connections starting in RESENDREQ_AWAITING / "
+                "RESENDREQ_HANDLING / RECV_SEQNUM_TOO_HIGH} x {tick gap "
                 "patterns 1000..1875 ms} x {phase of the grid relative to the last frame} x {sub-second offset of t0, "
                 "tick-or-frame first on ties, role, counters, journal shape}; every event of every scenario is one "
                 "evaluation (real coroutine vs. model from the same pre-state, effects with SendingTime + full "
@@ -360,8 +427,8 @@ def judge(spec, line):
                 yield ("C12-second-testrequest", "a TestRequest was sent while one is outstanding", {"step": k, "t": t - t0})
             # sentence 1: TestRequest by a + h + delta, delta = distance to the next tick: the first tick at or after
             # a + h (which comes no later than a + h + delta) must find the TestRequest sent or send it
-            if not outstanding and not treqs and not attempted and not any(e.startswith("R=") for e in eff) \
-                    and t >= probe_due_from + H:
+            if s["a_pre"].state == 17 and not outstanding and not treqs and not attempted \
+                    and not any(e.startswith("R=") for e in eff) and t >= probe_due_from + H:
                 yield ("C12-testrequest-late", f"nothing received since {probe_due_from - t0} ms, none outstanding, "
                        f"tick at {t - t0} ms >= h later and still no TestRequest", {"step": k})
             raised = any(e.startswith("R=") for e in eff)
@@ -378,7 +445,8 @@ def judge(spec, line):
                 # liveness by echo: a watchdog disconnect needs a TestRequest unanswered for more than 2h - 1 s
                 if outstanding is None:
                     # legitimate only as "nothing valid for 2h" (e.g. the TestRequest could not be sent)
-                    if t - last_arrival <= 2 * H or not attempted:
+                    # … or the connection is not ACTIVE (awaiting / serving a resend): it never probes there
+                    if t - last_arrival <= 2 * H or (s["a_pre"].state == 17 and not attempted):
                         yield ("C12-disconnect-nothing-outstanding", "the watchdog disconnected although no TestRequest "
                                "was unanswered", {"step": k, "t": t - t0})
                 elif t - outstanding[1] <= 2 * H - 1000:
@@ -401,6 +469,8 @@ def judge(spec, line):
         else:  # recv
             mtype, fields = s["ev"][2]
             fd = dict(fields)
+            # "valid traffic" = a frame the connection can accept: it carries exactly the expected MsgSeqNum
+            accepted = fd.get(34) == str(s["a_pre"].next_in)
             if mtype == "1":
                 hb = [f for f in fr if f[0] == "0"]
                 want = fd.get(112, "0")
@@ -431,9 +501,9 @@ def judge(spec, line):
                 if fr or disconnected or s["a_post"].test_req_id is None:
                     yield ("C12-heartbeat-without-id-not-ignored", "an interval Heartbeat touched the outstanding TestRequest",
                            {"step": k})
-            elif disconnected:
+            elif disconnected and accepted:
                 yield ("C12-valid-frame-disconnects", "a valid in-sequence frame caused a disconnect", {"step": k})
-            if up and s["a_post"].state > 3:
+            if up and s["a_post"].state > 3 and accepted:
                 last_arrival = t
                 attempted = False if s["a_post"].test_req_id is None else attempted
                 if not outstanding:
